@@ -41,7 +41,6 @@ import (
 	"github.com/refraction-networking/uquic/internal/protocol"
 	"github.com/refraction-networking/uquic/internal/qerr"
 	"github.com/refraction-networking/uquic/internal/utils"
-	"github.com/refraction-networking/uquic/internal/verifmc/canon"
 	"github.com/refraction-networking/uquic/internal/verifmc/explore"
 	"github.com/refraction-networking/uquic/internal/wire"
 )
@@ -83,6 +82,7 @@ type c16World struct {
 	phase   int
 	closeAt int
 	peerIss uint32
+	twice   bool // sticky, as in c16Mgr
 	outcome string
 }
 
@@ -299,6 +299,20 @@ func (w *c16World) step(op explore.Op) *explore.Fail {
 	for _, f := range w.newFrames {
 		w.issued[f.SequenceNumber] = f.ConnectionID
 	}
+	held, n := uint32(1)<<w.m.activeSequenceNumber, 1+len(w.m.queue)+len(w.m.pathProbing)
+	for _, e := range w.m.queue {
+		held |= 1 << e.SequenceNumber
+	}
+	for _, e := range w.m.pathProbing {
+		held |= 1 << e.SequenceNumber
+	}
+	if n != len(c16Bits(held)) {
+		w.twice = true
+	}
+	hist := ""
+	if w.twice {
+		hist = ":id-stored-twice"
+	}
 
 	// expectations
 	live := map[protocol.ConnectionID]bool{}
@@ -361,9 +375,9 @@ func (w *c16World) step(op explore.Op) *explore.Fail {
 		_, want := tokWant[tok]
 		switch {
 		case w.phase == 0 && hit && !want:
-			return explore.Failf("transport:reset-token-not-in-use:"+op.N, "%v: a stateless reset with the token of peer sequence number %d destroys the connection, but the peer IDs in use are active=%d probing=%v", op, s, w.m.activeSequenceNumber, w.probing())
+			return explore.Failf("transport:reset-token-not-in-use:"+op.N+hist, "%v: a stateless reset with the token of peer sequence number %d destroys the connection, but the peer IDs in use are active=%d probing=%v", op, s, w.m.activeSequenceNumber, w.probing())
 		case w.phase == 0 && !hit && want:
-			return explore.Failf("transport:reset-token-missing:"+op.N, "%v: peer sequence number %d is in use (active=%d probing=%v) but a stateless reset with its token is not recognised", op, s, w.m.activeSequenceNumber, w.probing())
+			return explore.Failf("transport:reset-token-missing:"+op.N+hist, "%v: peer sequence number %d is in use (active=%d probing=%v) but a stateless reset with its token is not recognised", op, s, w.m.activeSequenceNumber, w.probing())
 		case over && hit:
 			return explore.Failf("transport:reset-token-after-close", "%v: closing period over, a stateless reset with the token of peer sequence number %d still reaches the connection", op, s)
 		}
@@ -386,7 +400,7 @@ func (w *c16World) step(op explore.Op) *explore.Fail {
 	sort.Strings(extra)
 	switch {
 	case w.phase == 0 && (len(extra) > 0 || nH != len(live) || nT != len(tokWant)):
-		return explore.Failf("transport:map-mismatch:"+op.N, "%v: Transport.handlers has %d entries (want the %d live IDs), resetTokens %d (want %d); unexpected: %v; handlers %s", op, nH, len(live), nT, len(tokWant), extra, w.handlerDump())
+		return explore.Failf("transport:map-mismatch:"+op.N+hist, "%v: Transport.handlers has %d entries (want the %d live IDs), resetTokens %d (want %d); unexpected: %v; handlers %s", op, nH, len(live), nT, len(tokWant), extra, w.handlerDump())
 	case over && (nH != 0 || nT != 0):
 		what := "closing period over"
 		if op.N == "close" {
@@ -485,11 +499,10 @@ func (w *c16World) handlerDump() string {
 
 func (w *c16World) key() string {
 	var sb strings.Builder
-	sb.WriteString(canon.Dump(w.g, canon.Options{SkipField: func(typ, field string) bool {
-		return typ == "quic.connIDGenerator" && (field == "generator" || field == "connRunners" || field == "statelessResetter")
-	}}))
-	sb.WriteString("|" + canon.Dump(w.m, canon.Options{}))
-	fmt.Fprintf(&sb, "|%s|n=%d t=%d lim=%d hc=%v ph=%d ca=%d pi=%x|%s|", w.handlerDump(), w.idgen.n, w.tick, w.limit, w.hc, w.phase, w.closeAt, w.peerIss, w.ledger())
+	c16GenDump(&sb, w.g)
+	sb.WriteByte('|')
+	c16MgrDump(&sb, w.m)
+	fmt.Fprintf(&sb, "|%s|n=%d t=%d lim=%d hc=%v ph=%d ca=%d pi=%x tw=%v|%s|", w.handlerDump(), w.idgen.n, w.tick, w.limit, w.hc, w.phase, w.closeAt, w.peerIss, w.twice, w.ledger())
 	for _, p := range w.pending {
 		fmt.Fprintf(&sb, "%s@%d,", p.cid, p.at)
 	}
